@@ -924,9 +924,12 @@ func (c *Compiler) linkRecursiveCode(ctx *compileContext) {
 		lastCode.ElemIdx = lastCode.Idx + uintptrSize
 		lastCode.Length = lastCode.Idx + 2*uintptrSize
 
-		// extend length to alloc slot for elemIdx + length
-		curTotalLength := uintptr(recursive.TotalLength()) + 3
-		nextTotalLength := uintptr(totalLength) + 3
+		// extend length to alloc slot for idx + elemIdx + length of the
+		// OpRecursiveEnd code: they live at totalLength+1 .. totalLength+3,
+		// so a frame needs totalLength+4 slots (with +3 the indent saved in the
+		// length slot was overwritten by the first slot of the next frame).
+		curTotalLength := uintptr(recursive.TotalLength()) + 4
+		nextTotalLength := uintptr(totalLength) + 4
 
 		compiled := recursive.Jmp
 		compiled.Code = code
